@@ -454,10 +454,9 @@ func (x *Exec) applyContract(st *State, call *ast.CallExpr, key string, c *FuncC
 			h := x.heap(st, hk, es)
 			outer := Select(x.heap(st, okey, SSl), sv.Ref)
 			nh := x.fresh("H_"+hk, h.Sort)
-			r := Term{"md!r", SInt}
-			a := Term{"md!a", SInt}
-			isRow := Exists([]Term{a}, And(Cmp("<=", Int(0), a), Cmp("<", a, sv.Len), Eq(r, App(SInt, "s-ref", Select(outer, Add(sv.Off, a))))))
-			st.assume(Forall([]Term{r}, Implies(Not(isRow), Eq(Select(nh, r), Select(h, r))), []Term{Select(nh, r)}), "call-frame")
+			// what the callee may not touch: this function's own non-modifiable parameters and the global tables
+			// (anything else the caller still needs must be restated by its invariants / the callee's ensures)
+			x.preserveFrameCall(st, hk, h, nh, sv)
 			// caller-side frame for every row
 			a2 := Term{"md!b", SInt}
 			x.check(st, "frame", "frame/mod", Forall([]Term{a2}, Implies(And(Cmp("<=", Int(0), a2), Cmp("<", a2, sv.Len)),
@@ -779,3 +778,16 @@ func (x *Exec) deferStmt(st *State, s *ast.DeferStmt) {
 }
 
 var _ = token.NoPos
+
+// preserveFrameCall: after a call that may modify the rows of `rows`, arrays of this function's parameters
+// that are provably not among those rows keep their contents; so do global tables.
+func (x *Exec) preserveFrameCall(st *State, key string, old, nh Term, rows SliceV) {
+	okey, _ := heapKey(rows.Elem)
+	outer := Select(x.heap(st, okey, SSl), rows.Ref)
+	// rows of the modified matrix that are fresh (>= alloc0) cannot be parameter arrays (< alloc0)
+	q := Term{"fc!a", SInt}
+	allFresh := Forall([]Term{q}, Implies(And(Cmp("<=", Int(0), q), Cmp("<", q, rows.Len)), Cmp(">=", App(SInt, "s-ref", Select(outer, Add(rows.Off, q))), x.alloc0)), []Term{Select(outer, Add(rows.Off, q))})
+	r := Term{"fr!r", SInt}
+	st.assume(Implies(allFresh, Forall([]Term{r}, Implies(Cmp("<", r, x.alloc0), Eq(Select(nh, r), Select(old, r))), []Term{Select(nh, r)})), "call-frame")
+	st.assume(Forall([]Term{r}, Implies(And(Cmp("<", Int(0), r), Cmp("<", r, Int(100))), Eq(Select(nh, r), Select(old, r))), []Term{Select(nh, r)}), "call-frame:globals")
+}
